@@ -450,9 +450,7 @@ def arz_off_cone_bookkeeping_yields_one_value_per_sample_at_the_right_offset():
         prove("samples-outside-the-convolution-are-zero", eq(cut[j], 0))
 
 
-@harness(clause="bounded-whole-signal", bounded=40, label="B")
-def arz_small_showers_sampled():
-    """showers of a few GeV and below (tiny fractions of a modest neutrino energy): the field must still be finite"""
+def _small_showers(cls):
     n = integer("times_len", 16, 200)
     start = real("grid_start", -1e-7, 1e-7)
     dt = real("grid_step", 1e-10, 2e-9)
@@ -462,9 +460,26 @@ def arz_small_showers_sampled():
     p = Particle(e_em + e_had, e_em / (e_em + e_had), e_had / (e_em + e_had), real("depth", -3000, 0))
     ice = Ice(p.vertex[2], real("index", 1.3, 1.8))
     va = real("viewing_angle", 0, pi)
-    v = _values(ARZ, t, p, va, 10 ** real("log10_distance", 0, 3), ice, start + real("t0_fraction", 0.1, 0.9) * n * dt)
+    v = _values(cls, t, p, va, 10 ** real("log10_distance", 0, 3), ice, start + real("t0_fraction", 0.1, 0.9) * n * dt)
     prove("one-value-per-sample", len(v) == len(t))
     prove("finite-everywhere", bool(np.all(np.isfinite(v))))
+
+
+@harness(clause="bounded-whole-signal", bounded=40, label="B")
+def arz_small_showers_sampled():
+    """showers of a few GeV and below (tiny fractions of a modest neutrino energy): the field must still be finite"""
+    _small_showers(ARZ)
+
+
+@harness(clause="bounded-whole-signal", bounded=40, label="B")
+def avz_small_showers_sampled():
+    """the same for the AVZ parameterisation (its fits start at 1 TeV: smaller hadronic showers must not turn into NaN)"""
+    _small_showers(AVZ)
+
+
+@harness(clause="bounded-whole-signal", bounded=40, label="B")
+def zhs_small_showers_sampled():
+    _small_showers(ZHS)
 
 
 @harness(clause="bounded-whole-signal", bounded=40, label="B")
